@@ -5,6 +5,7 @@ alternative x world (E4) and records `Outcome`s with categorised issues:
 
   unsupported   no handler / handler raises or falls through / returns None for a non-null value
   unsound       the chosen class does not accept every valid value of the alternative in that world
+  miscoerce     as unsound, and the mismatch is one cattrs coerces silently instead of raising
   illtyped      the returned value is not an instance of a member of the union (raw dict, wrong class)
   lossy         a declared key present in the value is not declared by the chosen class
   probe         the handler probes a key that no alternative at that position declares
@@ -296,7 +297,10 @@ class SiteAnalysis:
             results = ev.run(alt, lambda w, leaf, alt=alt: self.judge(ev, site, alt, w, leaf))
             for w, leaf, issues in results:
                 self.worlds += 1
-                self.outcomes.append(Outcome(site, handler_desc, alt, w.describe(), self.leaf_desc(leaf), issues))
+                o = Outcome(site, handler_desc, alt, w.describe(), self.leaf_desc(leaf), issues)
+                o.leaf_kind = leaf.kind
+                o.leaf_ty = getattr(leaf, "ty", None)
+                self.outcomes.append(o)
             for path, key, base in ev.probes:
                 ok = declared_at.setdefault((path, key), set())
                 if base[0] == "cls" and key in self.shapes.decl(base[1]):
@@ -380,6 +384,10 @@ class SiteAnalysis:
             r = self.shapes.sub(v, target, False, present, absent)
             if r:
                 issues.append(("unsound", f"structure(_, {show(target)}) on a {show(v)} value: {r}"))
+                if " requires '" not in r:
+                    # not a missing-key failure: cattrs coerces (str(dict), int(x)...) instead of raising
+                    issues.append(("miscoerce", f"structure(_, {show(target)}) on a {show(v)} value succeeds by "
+                                                f"coercion although the value is not valid for it: {r}"))
             else:
                 r2 = self.shapes.sub(v, target, True, present, absent)
                 if r2:
